@@ -40,6 +40,10 @@ type PrecompiledContract interface {
 
 var DefaultAdminContract = AdminOP{}
 
+// AdminContractAddr is the genesis contract (core.AdminTo, see core/evm_config.go admin.sol)
+// in front of the admin precompile; it is the only caller the precompile answers.
+var AdminContractAddr = common.HexToAddress("0x02000000")
+
 // PrecompiledContractsHomestead contains the default set of pre-compiled Ethereum
 // contracts used in the Frontier and Homestead releases.
 var PrecompiledContractsHomestead = map[common.Address]PrecompiledContract{
